@@ -1,12 +1,31 @@
-(* C19: entry point of the extracted model.  Mode 2 = DEEP cases (graphs with hundreds of nodes): the cubic model is not
-   run, only the node set is echoed; the harness then compares the implementation with an independent reference of the
-   property's edge characterisation written in Python (stated in RULE). *)
+(* C19: entry point of the extracted model (same as C19.Model.run_case for modes 0 and 1; the definition is repeated rather
+   than called so that the extracted file has a single function named run_case).
+   Mode 2 = DEEP cases (graphs with hundreds of nodes): the cubic model is not run, only the node set is echoed; the harness
+   then compares the implementation with an independent reference of the property's edge characterisation written in Python
+   (stated in RULE). *)
 From Coq Require Import List Arith Bool.
-From PG Require Import Base.ListSet Base.Sx Graph.MGraph C19.Model.
+From PG Require Import Base.ListSet Base.Sx Graph.MGraph Graph.MSep C01.Model C19.Model.
 Import ListNotations.
 
 Definition run_case (s : sx) : sx :=
+  let g := sx_graph (sx_nth s 1) in
   match sx_nat (sx_nth s 0) with
-  | 2 => L [L [of_nats (sort_set (V (sx_graph (sx_nth s 1)))); L []; L []; L []; L []]; I 1; L []]
-  | _ => C19.Model.run_case s
+  | 2 => L [L [of_nats (sort_set (V g)); L []; L []; L []; L []]; I 1; L []]
+  | mode =>
+      let a := acy_model g in
+      let qs := sx_list (sx_nth s 2) in
+      let q3 (q : sx) := (sx_nats (sx_nth q 0), sx_nats (sx_nth q 1), sx_nats (sx_nth q 2)) in
+      let res :=
+        match mode with
+        | 0 => map (fun q => let '(X, Y, Z) := q3 q in
+                             L [res_code (msep_model a X Y Z); of_bool (msep_dec a X Y Z); of_bool (sigma_sep_dec g X Y Z)]) qs
+        | _ => map (fun q => let '(X, Y, Z) := q3 q in L [res_code (msep_model a X Y Z)]) qs
+        end in
+      L [of_graph a; of_bool (acyclicb a); L res]
   end.
+
+Lemma run_case_model s : sx_nat (sx_nth s 0) <> 2 -> run_case s = C19.Model.run_case s.
+Proof.
+  intros H. unfold run_case, C19.Model.run_case.
+  destruct (sx_nat (sx_nth s 0)) as [|[|[|n]]]; try reflexivity. congruence.
+Qed.
